@@ -68,9 +68,26 @@ def nameOk (n : Option Bytes) : Bool :=
     | some b => !b.contains 0 && sjisSub.dec b == s
     | none => false
 
-def inDomain (b : AssetBinary) : Bool :=
-  decide (b.flags < 2 ^ 32) && b.specs.all (fun s =>
-    decide (Spec.Asset.WF s.strs s.vals) && nameOk s.name && s.strs.all nameOk)
+/-- Does `pat` occur in `s`? -/
+def hasInfix (pat : Bytes) : Bytes → Bool
+  | [] => pat.isEmpty
+  | b :: rest => pat.isPrefixOf (b :: rest) || hasInfix pat rest
+
+/-- The three code points Shift-JIS encodes *lossily* (U+00A5, U+203E, U+2212), in UTF-8: outside
+the property's quantifier, and the sub-codec model cannot predict their bytes. -/
+def lossyName (n : Option Bytes) : Bool :=
+  match n with
+  | none => false
+  | some s => hasInfix [0xC2, 0xA5] s || hasInfix [0xE2, 0x80, 0xBE] s || hasInfix [0xE2, 0x88, 0x92] s
+
+def allNames (b : AssetBinary) : List (Option Bytes) := b.specs.flatMap (fun s => s.name :: s.strs)
+
+def shapeOk (b : AssetBinary) : Bool :=
+  decide (b.flags < 2 ^ 32) && b.specs.all (fun s => decide (Spec.Asset.WF s.strs s.vals))
+
+def namesOk (b : AssetBinary) : Bool := (allNames b).all nameOk
+
+def lossy (b : AssetBinary) : Bool := (allNames b).any lossyName
 
 /-- Check the flag bytes of record `k` of the real image against the specification. -/
 def recordCheck (k : Nat) (s : AssetSpec) (flags : List Nat) : Option String :=
@@ -95,7 +112,11 @@ def recordsCheck : Nat → List AssetSpec → List (List Nat) → Option String
   | _, _, _ => some "length: record count"
 
 def oracle (b : AssetBinary) (i : List String) : String :=
-  if !inDomain b then "ok skip out-of-domain" else
+  if !shapeOk b then "ok skip out-of-domain" else
+  if lossy b then "ok skip lossy-codepoint" else
+  -- a string the codec cannot represent: refusing to serialise is fine; but whatever `serialize`
+  -- accepts must be re-read exactly (the clauses below)
+  if !namesOk b && i.getD 1 "" == "err" then "ok refused" else
   match i with
   | [_, "ok", size, bytes, "rr-ok", value, re] =>
     let img := hexOrBad bytes
@@ -126,7 +147,10 @@ def family : Family where
   init := ()
   step := fun _ c i =>
     match binaryOf c with
-    | some b => ((), modelOut b, oracle b i)
+    | some b =>
+      -- lossily encodable code points: the sub-codec cannot predict the bytes — correspondence skip
+      let m := if lossy b then " ".intercalate (i.drop 1) else modelOut b
+      ((), m, oracle b i)
     | none => ((), "bad-case", "FAIL bad-case")
 
 end Driver.Asset
